@@ -432,7 +432,7 @@ def inInt64 (v : Int) : Bool := decide (-(9223372036854775808 : Int) ≤ v) && d
 (no `+`, no leading zeros, no `-0`) -/
 def isCanonInt (t : Bytes) : Bool :=
   match parseInt t with
-  | some i => fmtInt i == t
+  | some i => fmtInt i == t && inInt64 i
   | none => false
 
 mutual
